@@ -64,3 +64,29 @@ async def async_format(fce: Optional[str], world: E.World, text: Optional[str] =
 
 def world_for(ast, asg: Dict[str, str], fa: Optional[Dict[str, bool]] = None, wid="w", **kw) -> E.World:
     return E.World(wid, rc=dict(asg), fc=dict(fa or {k: True for k in G.keys_of(ast, "fc")}), **kw)
+
+
+async def with_shipped_evaluators(mode: str, cer, factory, text: Optional[str] = "text"):
+    """
+    run factory() with the library's own ready-made evaluators bound instead of the harness ones:
+      mode "hardcoded": create_hardcoded_evaluators(cer)  (dictionary based)
+      mode "cer":       create_content_evaluation_result_based_evaluators(), the result travelling in context local evaluatable data
+    ("ok", value) | ("exc", exception); the harness evaluators are re-installed afterwards
+    """
+    from ahbicht.content_evaluation.fc_evaluators import text_to_be_evaluated_by_format_constraint
+
+    if mode == "hardcoded":
+        E.install_hardcoded(cer)
+    else:
+        E.install_cer_based()
+
+    async def go():
+        if mode != "hardcoded":
+            E.set_cer(cer)
+        text_to_be_evaluated_by_format_constraint.set(text)
+        return await factory()
+
+    try:
+        return await sched.run_under(None, go)
+    finally:
+        E.install()
